@@ -32,6 +32,7 @@ static ALLOC: total::Counting = total::Counting;
 fn main() {
     common::quiet_panics();
     let args = Args::parse();
+    common::watchdog(std::env::var("VERIF_WATCHDOG").ok().and_then(|s| s.parse().ok()).unwrap_or(1500));
     match args.module.as_str() {
         "sweep" => sweep::run(&args),
         "poll" => poll::run(&args),
